@@ -150,9 +150,9 @@ func (r *run) views(side Side, got, want *obs) []view {
 	return []view{{"", got.c.Live, want.c.Live}, {"Frame.", got.c.Frame, want.c.Frame}}
 }
 
-// compare reports the first difference between got (the instance under test)
-// and want (the direct build) on the reported side.  The signature is the
-// generalised path of the first differing field.  Returns (clean, ok): clean =
+// compare reports the differences between got (the instance under test) and
+// want (the direct build) on the reported side, one signature per generalised
+// path of a differing field (listed ones are masked and the search goes on).  Returns (clean, ok): clean =
 // both sides equal; ok = no unlisted difference (the caller resynchronises
 // when !clean).
 func (r *run) compare(clause string, h uint32, got, want *obs) (clean, ok bool) {
@@ -187,54 +187,83 @@ func (r *run) compare(clause string, h uint32, got, want *obs) (clean, ok bool) 
 		}
 	}()
 	for _, v := range r.views(r.cfg.Side, got, want) {
-		df := (&canon.Differ{}).First(v.a, v.b)
-		if df == nil {
-			continue
-		}
-		// m[k] = 0 (or an empty inner map) left behind by a "+= / -=" rollback
-		// where the direct build has no entry is one finding, whatever the map
-		lenient := (&canon.Differ{ZeroEntryAbsent: true}).First(v.a, v.b)
-		if lenient != nil && r.cfg.Side == DPoS {
-			// dposArbiter keeps a shallow copy of the Producer taken when the
-			// arbiter list was built: its vote maps are shared with the live
-			// producer until that one replaces them, so their content depends on
-			// the order of later operations (only info/owner keys are read from
-			// the copy).  One finding whatever the list.
-			if masked := (&canon.Differ{ZeroEntryAbsent: true, Mask: arbiterCopyMask}).First(v.a, v.b); masked == nil {
-				detail := fmt.Sprintf("height %d: %s%s = %s, direct build has %s", h, v.name, lenient.Path, lenient.A, lenient.B)
-				if !vk.Report(r.t, r.cfg.Prop+":"+clause+":arbiter-producer-copy-shares-vote-maps", detail, r.render()) {
+		// Differences are reported one by one: a listed one is masked (its
+		// generalised path) and the comparison goes on, so that a frequent known
+		// finding does not hide the fields that come after it.  The views after
+		// the first differing one would repeat the same root causes.
+		mask := map[string]bool{}
+		found, resync := false, false
+		for iter := 0; iter < 12; iter++ {
+			df := (&canon.Differ{Mask: mask}).First(v.a, v.b)
+			if df == nil {
+				break
+			}
+			found = true
+			// m[k] = 0 (or an empty inner map) left behind by a "+= / -=" rollback
+			// where the direct build has no entry is one finding, whatever the map
+			lenient := (&canon.Differ{ZeroEntryAbsent: true, Mask: mask}).First(v.a, v.b)
+			if lenient == nil {
+				detail := fmt.Sprintf("height %d: %s%s = %s, direct build has %s", h, v.name, df.Path, df.A, df.B)
+				if !vk.Report(r.t, r.cfg.Prop+":"+clause+":zero-valued-map-entry-left-behind", detail, r.render()) {
 					return false, false
 				}
 				r.known = true
-				return true, true
+				// behaviourally equal: no resynchronisation needed
+				break
 			}
-		}
-		if lenient == nil {
+			if r.cfg.Side == DPoS {
+				// dposArbiter keeps a shallow copy of the Producer taken when the
+				// arbiter list was built: its vote maps are shared with the live
+				// producer until that one replaces them, so their content depends on
+				// the order of later operations (only info/owner keys are read from
+				// the copy).  One finding whatever the list.
+				both := map[string]bool{}
+				for k := range mask {
+					both[k] = true
+				}
+				for k := range arbiterCopyMask {
+					both[k] = true
+				}
+				if (&canon.Differ{ZeroEntryAbsent: true, Mask: both}).First(v.a, v.b) == nil {
+					detail := fmt.Sprintf("height %d: %s%s = %s, direct build has %s", h, v.name, lenient.Path, lenient.A, lenient.B)
+					if !vk.Report(r.t, r.cfg.Prop+":"+clause+":arbiter-producer-copy-shares-vote-maps", detail, r.render()) {
+						return false, false
+					}
+					r.known = true
+					break
+				}
+			}
+			df = lenient
+			sig := r.cfg.Prop + ":" + clause + ":" + v.name + df.Sig()
 			detail := fmt.Sprintf("height %d: %s%s = %s, direct build has %s", h, v.name, df.Path, df.A, df.B)
-			if !vk.Report(r.t, r.cfg.Prop+":"+clause+":zero-valued-map-entry-left-behind", detail, r.render()) {
+			if r.cfg.Side == DPoS && r.effectedSetContradictsRights(df) {
+				// forward inconsistency, not a rollback one: in the direct build the
+				// membership of a producer in DposV2EffectedProducers contradicts its
+				// vote rights (renewals raise and expiries lower the rights without
+				// maintaining the set; only new votes and their rollbacks apply the
+				// rule), so undoing a later vote "repairs" the set.  One finding.
+				sig = r.cfg.Prop + ":" + clause + ":effected-set-of-the-direct-build-contradicts-the-vote-rights"
+			}
+			if !vk.Report(r.t, sig, detail, r.render()) {
 				return false, false
 			}
 			r.known = true
-			// behaviourally equal: no resynchronisation needed
-			return true, true
-		} else {
-			df = lenient
+			resync = true
+			mask[canon.Generalize(df.Path)] = true
+			if strings.HasPrefix(df.Path, "degradation.") {
+				// one root cause (the degradation state machine is outside the
+				// change history): state, understaffedSince, ... differ together
+				mask["degradation"] = true
+			}
+			if strings.HasPrefix(df.Path, "State.StateKeyFrame.CurrentCRNodeOwnerKeys[") {
+				// one root cause (handleEvents(ETCRCChangeCommittee) moves the next
+				// CR node keys to the current ones outside the change history)
+				mask["State.StateKeyFrame.NextCRNodeOwnerKeys"] = true
+			}
 		}
-		sig := r.cfg.Prop + ":" + clause + ":" + v.name + df.Sig()
-		detail := fmt.Sprintf("height %d: %s%s = %s, direct build has %s", h, v.name, df.Path, df.A, df.B)
-		if r.cfg.Side == DPoS && r.effectedSetContradictsRights(df) {
-			// forward inconsistency, not a rollback one: in the direct build the
-			// membership of a producer in DposV2EffectedProducers contradicts its
-			// vote rights (renewals raise and expiries lower the rights without
-			// maintaining the set; only new votes and their rollbacks apply the
-			// rule), so undoing a later vote "repairs" the set.  One finding.
-			sig = r.cfg.Prop + ":" + clause + ":effected-set-of-the-direct-build-contradicts-the-vote-rights"
+		if found {
+			return !resync, true
 		}
-		if !vk.Report(r.t, sig, detail, r.render()) {
-			return false, false
-		}
-		r.known = true
-		return false, true
 	}
 	return true, true
 }
